@@ -108,6 +108,18 @@ def run(ctx, replay):
             else:
                 steps.append({"op": "adv", "d": rng.choice([1, 1, 2, 3, 10])})
         ts.append({"id": "ttl-%d" % i, "cfg": {"cap": cap}, "steps": steps})
+    # large capacities: fill the map completely (nothing expired), then insert further keys: exactly one entry may go each time
+    for j, cap in enumerate([200, 257] if quick else [200, 257, 300, 1000]):
+        steps = []
+        for i in range(cap):
+            steps.append({"op": "set", "k": "k%d" % i, "v": 1, "ttl": 100000})
+            if i % 10 == 0:
+                steps.append({"op": "adv", "d": 1})
+        for i in range(cap, cap + 4):
+            steps.append({"op": "set", "k": "k%d" % i, "v": 1, "ttl": 100000})
+            steps.append({"op": "adv", "d": 1})
+        steps += [{"op": "get", "k": "k%d" % i} for i in (0, 1, 2, 3, 4, 5, 50, cap - 1, cap + 3)]
+        ts.append({"id": "ttl-big-%d" % j, "cfg": {"cap": cap}, "steps": steps})
     tp = vlib.run_scenarios(ctx, "ttlmap", ts, "c14-ttlmap")
     res = vlib.validate_trace(ctx, "Trace_TTLMap", tp, "c14-ttlmap")
     vlib.collect(ctx, res, {s["id"]: s for s in ts}, "ttlmap", C03.classify, ["C14."])
